@@ -504,6 +504,15 @@ func vfC45GenHTTPFilters(g *vfC45G, m protoreflect.Message, fd protoreflect.Fiel
 		}
 	}
 	list := m.Mutable(fd).List()
+	shape := 0
+	if good && g.wild > 0 {
+		switch r := g.roll("filter_shape"); {
+		case r < 12:
+			shape = 1 // last filter is not terminal
+		case r < 24:
+			shape = 2 // terminal filter first, others after it
+		}
+	}
 	for i := 0; i < n; i++ {
 		el := list.NewElement()
 		fm := el.Message()
@@ -512,7 +521,9 @@ func vfC45GenHTTPFilters(g *vfC45G, m protoreflect.Message, fd protoreflect.Fiel
 			g.addrSeq++
 			fm.Set(fds.ByName("name"), protoreflect.ValueOfString(fmt.Sprintf("hf%d", g.addrSeq)))
 			typ := vfC45Router
-			if i < n-1 {
+			// shape perturbations of an otherwise valid list: no terminal filter
+			// at the end, or the terminal filter first
+			if shape == 1 || (shape == 2 && i != 0 && n > 1) || (shape == 0 && i < n-1) {
 				// fault injection is a client-side filter, RBAC a server-side one
 				typ = vfC45Fault
 				if g.server > 0 {
